@@ -30,7 +30,7 @@ from framework import Check, Failing
 
 warnings.simplefilter('ignore')
 
-TARGETS = ['WcModel.Properties.C16']
+TARGETS = ['WcModel.Properties.C16', 'WcModel.Properties.C16walk']
 
 SITE = {
     'KF-D6': 'wcmatch/_wcparse.py:1645-1662',
@@ -40,8 +40,9 @@ SITE = {
     'KF-PLNORM': 'wcmatch/glob.py:457,467,801-805',
     'KF-DOTSEG': 'wcmatch/pathlib.py:216',
     'KF-RGLOBSTAR': 'wcmatch/glob.py:370-380',
-    'KF-NEWLINE': 'wcmatch/glob.py:289; wcmatch/_wcparse.py:210-212, 222-223',
-    'KF-PARTPREFIX': 'wcmatch/glob.py:289; wcmatch/_wcparse.py:1645-1662',
+    'KF-NEWLINE': 'wcmatch/_wcparse.py:210-212, 222-223',
+    'KF-PARTPREFIX': 'wcmatch/_wcparse.py:1645-1662',
+    'KF-G6': 'wcmatch/glob.py:289-291',
     'KF-D16': 'wcmatch/glob.py:458,468',
     'KF-D14': 'wcmatch/glob.py:601',
     'KF-G3': 'wcmatch/_wcmatch.py:106-107',
@@ -50,7 +51,7 @@ SITE = {
 
 
 # repaired defects whose old witnesses are still replayed (a reproduction is an unattributed violation)
-FIXED = {'KF-D14', 'KF-D16', 'KF-PLNORM'}
+FIXED = {'KF-D14', 'KF-D16', 'KF-PLNORM', 'KF-G6'}
 
 
 def _crosses_link(root: str, q: str) -> bool:
@@ -207,16 +208,9 @@ def _glob_cases(ck, sr_k8, sr, drv, G, P, W, R, root, tree, ents, pats, fl, excl
                                                                           root_dir=str(obj), exclude=exclude)])
                 if plain == ref:
                     kid = 'KF-RGLOBSTAR'
-            if kid is None and is_dir and method == 'rglob' and exp[0] == 'ok' and res[0] == 'ok' and \
-                    K.sig_empty_part(G, W, P, pats, fl) and all(x in res[1] for x in exp[1]):
-                kid = 'KF-PARTPREFIX'      # rglob yields everything the specification yields, and more
-            if kid is None and is_dir and method == 'rglob' and exp[0] == 'ok' and res[0] == 'ok':
-                diff = [x for x in exp[1] if x not in res[1]] + [x for x in res[1] if x not in exp[1]]
-                if diff and all(any(comp.endswith('\n') for comp in str(x).split('/')) for x in diff):
-                    # '$' before a final newline of a name, inside the per-part prefix regex (`(?:^|$|/)+`) or a
-                    # `!(…)` look-ahead.  (The `re.match` half of this finding, D14, is repaired; a newline
-                    # INSIDE a name is no excuse.)
-                    kid = 'KF-NEWLINE'
+            # (the walker halves of KF-PARTPREFIX / KF-NEWLINE — per-part regexes compiled with `_EXTMATCHBASE` still
+            #  set: rglob('*(a|b)') yielded every name, rglob('?') the directory 'c\n' — are repaired (G6): a list
+            #  that differs from glob('**/' + p) is unattributed, whatever the pattern and the names)
             f = Failing(f'Path.{method} differs from glob.glob(root_dir=path) joined onto the path',
                         case.inp(P, tree), _show(exp), _show(got), SITE.get(kid, 'wcmatch/pathlib.py:195-236'))
             _hist(sr, f'failing:{kid or "unattributed"}')
@@ -305,10 +299,16 @@ def _match_vs_rglob(ck, sr, G, P, W, root, tree, ents, pat, fl) -> None:
             if m[1] and not member and K.sig_first_gstar(W, P, pat, fl) and \
                     P.Path(q) in K.outcome(lambda: list(P.Path('.').glob(pat, flags=fl | P.NOUNIQUE)))[1]:
                 kid = 'KF-RGLOBSTAR'        # glob(p) (= what rglob(p) must be here) yields q: rglob lost it
-            elif any(comp.endswith('\n') for comp in q.split('/')):
-                kid = 'KF-NEWLINE'          # a name ENDING in a newline ('$' in the prefix divider / a look-ahead)
-            elif K.sig_empty_part(G, W, P, pat, fl) and (truth is None or truth != member or truth != bool(m[1])):
-                kid = 'KF-PARTPREFIX'       # a part that can match '' : rglob and/or match accept any name
+            elif any(comp.endswith('\n') for comp in q.split('/')) and \
+                    ((m[1] and not member) or (fl & P.EXTGLOB and '!(' in pat)):
+                # a name ENDING in a newline: match() accepts it through the '$' of its prefix divider `(?:^|$|/)+`
+                # (the walker's per-part regexes have no prefix since the G6 repair: rglob does not yield it), or
+                # the '$' in the look-ahead of a `!(…)` decides differently on `name` (walker) and `name/` (match)
+                kid = 'KF-NEWLINE'
+            elif m[1] and not member and truth is not True and K.sig_empty_part(G, W, P, pat, fl):
+                # a segment that can match '' : the right-anchored regex of match() accepts any name (rglob, whose
+                # per-part regexes have no prefix since the G6 repair, does not yield it, nor does glob('**/' + p))
+                kid = 'KF-PARTPREFIX'
             elif m[1] and not member and _crosses_link(root, q) and K.sig_has_gstar_segment(W, P, pat, fl):
                 # the implicit `**/` of match() plus a written globstar = two `**` groups: _fs_match lstat-s the
                 # pieces of the second group under the wrong directory and misses the symlinked directory (G3)
@@ -494,7 +494,8 @@ def _witnesses(ck: Check, sr, G, P, W) -> None:
         mvr('KF-D7', '**', P.GLOBSTAR, 'lf')
         mvr('KF-D8', '**/', P.GLOBSTAR, 'f.txt')
         mvr('KF-DOTSEG', '.', 0, 'd')
-        mvr('KF-NEWLINE', '?', 0, 'c\n')
+        mvr('KF-NEWLINE', '?', 0, 'a\n')
+        mvr('KF-G6', '?', 0, 'c\n')
         mvr('KF-D14', '@(a|b)', P.EXTGLOB, 'a\n')
         mvr('KF-D16', '*', P.NODIR, 'x\\')
         mvr('KF-RGLOBSTAR', '**/*', P.GLOBSTAR, 'xyz')
@@ -505,10 +506,13 @@ def _witnesses(ck: Check, sr, G, P, W) -> None:
              {'api': 'Path.rglob', 'pattern': '**/*', 'flags': P.GLOBSTAR}, b, a)
         a = sorted(str(x) for x in P.Path('.').rglob('*(a|b)', flags=P.EXTGLOB))
         b = sorted(G.glob('**/*(a|b)', flags=G.EXTGLOB | G.GLOBSTAR))
-        seen('KF-PARTPREFIX', a != b or P.PurePath('xyz').match('*(a|b)', flags=P.EXTGLOB),
-             "rglob('*(a|b)') / match('*(a|b)') accept names the pattern does not denote",
-             {'api': 'Path.rglob', 'pattern': '*(a|b)', 'flags': P.EXTGLOB}, b,
-             {'rglob': a, "PurePath('xyz').match": P.PurePath('xyz').match('*(a|b)', flags=P.EXTGLOB)})
+        seen('KF-G6', a != b, "rglob('*(a|b)') yields names the pattern does not denote (it must be glob('**/*(a|b)'))",
+             {'api': 'Path.rglob', 'pattern': '*(a|b)', 'flags': P.EXTGLOB}, b, a)
+        mvr('KF-PARTPREFIX', '*(a|b)', P.EXTGLOB, 'xyz')
+        seen('KF-PARTPREFIX', P.PurePath('xyz').match('*(a|b)', flags=P.EXTGLOB),
+             "match('*(a|b)') accepts a name the pattern does not denote",
+             {'api': 'PurePath.match', 'path': 'xyz', 'pattern': '*(a|b)', 'flags': P.EXTGLOB}, False,
+             {"PurePath('xyz').match": P.PurePath('xyz').match('*(a|b)', flags=P.EXTGLOB)})
         a = sorted(x.name for x in P.Path(root).glob('*'))
         b = sorted(G.glob('*', root_dir=root))
         seen('KF-PLNORM', a != b, "Path.glob('*') drops a file whose name differs from another only by '\\.\\'",
@@ -520,7 +524,7 @@ def _witnesses(ck: Check, sr, G, P, W) -> None:
              {'api': 'Path.glob', 'path': 'f.txt', 'patterns': ['./', '/a']}, {'./': b, '/a': 'ValueError'},
              {'./': a, '/a': list(c)})
         sr.note = 'the witnesses of the listed findings, replayed on the real code on a fourteen-entry tree'
-        sr.distinct += 14
+        sr.distinct += 17
     finally:
         os.chdir(cwd0)
         shutil.rmtree(top, ignore_errors=True)
